@@ -35,13 +35,17 @@ func bvBytes(t *Term, n int) Slice {
 	return out
 }
 
+// The message enters the signature scheme through a collision-free digest
+// (Ed25519 hashes the message internally); the digest is the same
+// uninterpreted sha256 family used everywhere else, which keeps the
+// arguments of the sign/verify functions at 256 bits.
+func (ex *Exec) msgDigest(msg []Value) *Term {
+	return bvOfBytes(ex.sha256Of(msg))
+}
+
 func (ex *Exec) edVerifyTerm(pk, msg, sig []Value) *Term {
-	if len(msg) == 0 {
-		f := UF("edverify_0", []Sort{SBV(256), SBV(512)}, SBool)
-		return App(f, SBool, bvOfBytes(pk), bvOfBytes(sig))
-	}
-	f := UF(fmt.Sprintf("edverify_%d", len(msg)), []Sort{SBV(256), SBV(8 * len(msg)), SBV(512)}, SBool)
-	return App(f, SBool, bvOfBytes(pk), bvOfBytes(msg), bvOfBytes(sig))
+	f := UF("edverify", []Sort{SBV(256), SBV(256), SBV(512)}, SBool)
+	return App(f, SBool, bvOfBytes(pk), ex.msgDigest(msg), bvOfBytes(sig))
 }
 
 func registerCrypto(e *Engine) {
@@ -63,14 +67,8 @@ func registerCrypto(e *Engine) {
 		if len(sk) != 64 {
 			ex.rtPanic(fmt.Sprintf("ed25519: bad private key length: %d", len(sk)))
 		}
-		var sigT *Term
-		if len(msg) == 0 {
-			fn := UF("edsign_0", []Sort{SBV(512)}, SBV(512))
-			sigT = App(fn, SBV(512), bvOfBytes(sk))
-		} else {
-			fn := UF(fmt.Sprintf("edsign_%d", len(msg)), []Sort{SBV(512), SBV(8 * len(msg))}, SBV(512))
-			sigT = App(fn, SBV(512), bvOfBytes(sk), bvOfBytes(msg))
-		}
+		fn := UF("edsign", []Sort{SBV(512), SBV(256)}, SBV(512))
+		sigT := App(fn, SBV(512), bvOfBytes(sk), ex.msgDigest(msg))
 		sig := bvBytes(sigT, 64)
 		ex.addPC(ex.edVerifyTerm(sk[32:], msg, sig))
 		return sig
